@@ -12,7 +12,8 @@ what these two functions need; everything else still raises Untranslatable:
     variable as a `match` on the AstLite constructor, binding the fields that are read;
   * ast.alias attributes (`.name`, `.asname`);
   * the dict literal {'name':, 'alias':, 'tree_index':} as the record `imp`, `d['field']`
-    reads, `{}` / `d[k] = v` on a declared int->str dict (insertion-ordered `dict_set`);
+    reads, `{}` and `d.setdefault(k, []).append(v)` on a declared int->[str] dict
+    (insertion-ordered `dict_add`);
   * `a or b` on (optional str, str); `s.rsplit('.', 1)[0]` as `parent s`;
   * `x = <optional str> + ...` raises TypeError when the left operand is None.
 """
@@ -170,12 +171,6 @@ class AstTranslator(Translator):
     def assign(self, st, env, k):
         if len(st.targets) == 1:
             tgt = st.targets[0]
-            if isinstance(tgt, ast.Subscript) and isinstance(tgt.value, ast.Name) and not isinstance(tgt.slice, ast.Slice):
-                name = tgt.value.id
-                if name in env.vars and env.vars[name][1] == DICT:
-                    kx, _ = self.expr(tgt.slice, env, Z)
-                    vx, _ = self.expr(st.value, env, STR)
-                    return self.bind(env, name, '(dict_set %s %s %s)' % (env.vars[name][0], kx, vx), DICT, k)
             if isinstance(tgt, ast.Name) and isinstance(st.value, ast.BinOp) and isinstance(st.value.op, ast.Add):
                 left = st.value
                 while isinstance(left, ast.BinOp) and isinstance(left.op, ast.Add):
@@ -190,6 +185,21 @@ class AstTranslator(Translator):
                         return ('match %s with\n| None => Err TypeError\n| Some %s =>\n%s\nend'
                                 % (a, nm, super().assign(st, env2, k)))
         return super().assign(st, env, k)
+
+    def call_stmt(self, c, env, k):
+        # d.setdefault(key, []).append(value) on a declared int->[str] dict
+        f = c.func
+        if (isinstance(f, ast.Attribute) and f.attr == 'append' and len(c.args) == 1 and not c.keywords
+                and isinstance(f.value, ast.Call) and isinstance(f.value.func, ast.Attribute)
+                and f.value.func.attr == 'setdefault' and isinstance(f.value.func.value, ast.Name)
+                and len(f.value.args) == 2 and not f.value.keywords
+                and isinstance(f.value.args[1], ast.List) and not f.value.args[1].elts):
+            name = f.value.func.value.id
+            if name in env.vars and env.vars[name][1] == DICT:
+                kx, _ = self.expr(f.value.args[0], env, Z)
+                vx, _ = self.expr(c.args[0], env, STR)
+                return self.bind(env, name, '(dict_add %s %s %s)' % (env.vars[name][0], kx, vx), DICT, k)
+        return super().call_stmt(c, env, k)
 
     def for_(self, st, env, k):
         if st.orelse:
